@@ -670,4 +670,22 @@ theorem safe_iterEraseVec {inp : Input} {a : Nat} {mask : List Nat} (hc : ¬ IsL
           simp only [Instr.kills, Instr.uses] at hk hu <;> omega
       · exact hk
 
+theorem safe_sinkAll {inp : Input} {a n : Nat} (hn : n ≤ inp.size a) : Safe inp (sinkAll (inp.isRv a) a n) := by
+  refine ⟨?_, ?_⟩
+  · intro x hx
+    simp only [sinkAll, List.mem_map, List.mem_range] at hx
+    obtain ⟨i, hi, rfl⟩ := hx
+    exact ok_sinkAt (by omega)
+  · apply clean_map_range
+    intro i j hij _ b k hk hu
+    have e1 := sinkAt_footprint (Or.inl hk)
+    have e2 := sinkAt_footprint (Or.inr hu)
+    omega
+
+theorem onArg_sinkAll (rv : Bool) (a n : Nat) : OnArg a (sinkAll rv a n) := by
+  intro x hx b j h
+  simp only [sinkAll, List.mem_map, List.mem_range] at hx
+  obtain ⟨i, _, rfl⟩ := hx
+  exact (sinkAt_footprint h).1.symm
+
 end Fcppt.C05
